@@ -212,7 +212,8 @@ def _op_balance(self, op):
             elif m == "eager":
                 mapf = _eager_map
             else:
-                pool = seams.SimPool(cfg.get("nproc", 2), copy=not m.startswith("thread"))
+                pool = seams.SimPool(cfg.get("nproc", 2), copy=not m.startswith("thread"),
+                                     serializer="pickle" if m.startswith("stdlib") else "dill")
                 sim.sched.param = "p%dw0" % pool.no
                 mapf = {"map": pool.map, "imap": pool.imap, "imap_unordered": pool.imap_unordered}[m.split(".")[1]]
             with warnings.catch_warnings(), np.errstate(all="ignore"):
